@@ -325,6 +325,10 @@ def obligations(tier, seed):
     specs.append(spec(MOD, 'TileMetadata', 'canary/concurrently created tile re-loaded without metadata', kind='canary', cfg={},
                       patches={'mapproxy.cache.tile': [["                self.cache.load_tile(tile, with_metadata, dimensions=dimensions)",
                                                         "                self.cache.load_tile(tile, dimensions=dimensions)"]]}))
+    # "... until it is rewritten": a rewrite must change the stored timestamp (validators are a function of timestamp and size);
+    # for the backends that record the timestamp themselves this is the C13 store harness
+    for via in ('store_tile', 'store_tiles'):
+        specs.append(spec('props.C13_expiry', 'StoreTimestamp', 'rewrite-gets-a-new-timestamp/sqlite/%s' % via, cfg=dict(via=via)))
     specs.append(dict(name='stub-contract/httpdate', module=MOD, func='selfcheck_httpdate', kind='holds', args={}, cost=1))
     specs.append(spec(MOD, 'CondHarness', 'twin/CondHarness', kind='witness', cfg=dict(service='wmts', inm='current', ims='date', max_age=3600)))
     for label, patches, c in (CANARIES if tier == 'thorough' else CANARIES[:4]):
@@ -339,9 +343,9 @@ META = dict(
                 'real Response.cache_headers/make_conditional and TileServer.map / WMTSServer.tile / KMLServer.map run '
                 'symbolically. z3 shows: identical validators for the same stored tile; If-None-Match = current ETag => '
                 '304 with empty body and no Content-type; 304 only if the ETag matches the tile as stored or '
-                'If-Modified-Since >= its timestamp; after a rewrite the old ETag yields 200; uncacheable tiles get '
+                'If-Modified-Since >= its timestamp; after a rewrite the old ETag yields 200 (and a rewrite in the SQLite backends records the time of the rewrite, whatever timestamp the tile object carried); uncacheable tiles get '
                 'no-store, no validators and never 304 -- for every tile service.',
-    functions=CondHarness.functions,
+    functions=CondHarness.functions + ['MBTilesCache._store_bulk', 'TileManager._load_tile_coords'],
     bounds='timestamps >= 1 (reals), sizes >= 0, If-Modified-Since any whole second >= 0; header kinds enumerated '
            '(absent / current / other tile version / malformed)',
     outside='WMS-C path through WMSServer.map; real HTTP date parsing beyond the stated contract; md5',
